@@ -29,12 +29,14 @@ package linkedhashset
 //@   ensures [C04 C09 C17] Inv(set) && set.table == old(set.table) && set.ordering == old(set.ordering)
 //@   ensures [C04] members: forall x like elemof(items) :: Mem(set, x) <==> old(Mem(set, x)) || x in seq(items)
 //@   ensures [C09] kept: forall i :: 0 <= i && i < old(N(set)) ==> K(set)[i] == old(K(set))[i]
+//@   ensures [C04] all-added: forall j :: 0 <= j && j < len(items) ==> Mem(set, items[j])
 //@   ensures [C04 C09] N(set) >= old(N(set)) && N(set) <= old(N(set)) + len(items) && (len(items) == 0 ==> N(set) == old(N(set)))
 //@   ensures [C09] single: len(items) == 1 ==> (old(Mem(set, items[0])) ==> K(set) == old(K(set))) && (!old(Mem(set, items[0])) ==> K(set) == old(K(set)) ++ [items[0]])
 //@   loop 1:
 //@     invariant Inv(set) && set.table == old(set.table) && set.ordering == old(set.ordering) && 0 - 1 <= rangeindex && rangeindex < len(items)
 //@     invariant forall x like elemof(items) :: Mem(set, x) <==> old(Mem(set, x)) || (exists j :: 0 <= j && j <= rangeindex && items[j] == x)
 //@     invariant forall i :: 0 <= i && i < old(N(set)) ==> K(set)[i] == old(K(set))[i]
+//@     invariant forall j :: 0 <= j && j <= rangeindex ==> Mem(set, items[j])
 //@     invariant N(set) >= old(N(set)) && N(set) <= old(N(set)) + rangeindex + 1
 //@     invariant len(items) == 1 && rangeindex == 0 ==> (old(Mem(set, items[0])) ==> K(set) == old(K(set))) && (!old(Mem(set, items[0])) ==> K(set) == old(K(set)) ++ [items[0]])
 //@     decreases len(items) - rangeindex
@@ -205,3 +207,38 @@ package linkedhashset
 //@     invariant forall j :: iterator.iterator.index <= j && j < old(iterator.iterator.index) && 0 <= j ==> !f(j, doublylinkedlist.Seq(iterator.iterator.list)[j])
 //@     decreases iterator.iterator.index + 1
 
+// ---- JSON (C11 round trip, C12 replace / sound / atomic) ----
+
+//@ func Set.ToJSON
+//@   requires Inv(set)
+//@   modifies nothing
+//@   ensures [C11 C17 C18] result1 == nil && fresh(arr(result0)) && jarr_kind(result0, keyof(set.table)) == 3 && jarr_len(result0, keyof(set.table)) == N(set)
+//@   ensures [C09 C11] order: forall i :: 0 <= i && i < N(set) ==> jarr_at(result0, i, keyof(set.table)) == K(set)[i]
+
+//@ func Set.MarshalJSON
+//@   requires Inv(set)
+//@   modifies nothing
+//@   ensures [C11 C17 C18] result1 == nil && fresh(arr(result0)) && jarr_kind(result0, keyof(set.table)) == 3 && jarr_len(result0, keyof(set.table)) == N(set)
+//@   ensures [C09 C11] order: forall i :: 0 <= i && i < N(set) ==> jarr_at(result0, i, keyof(set.table)) == K(set)[i]
+
+//@ func Set.FromJSON
+//@   requires Inv(set)
+//@   modifies set.table, set.rank, set.ordering.first, set.ordering.last, set.ordering.size, set.ordering.nodes
+//@   modifies map(set.table)
+//@   modifies each e like set.ordering.first where e.owner == set.ordering : e.next
+//@   ensures [C12 C17] Inv(set) && (result == nil <==> jarr_kind(data, keyof(set.table)) >= 2)
+//@   ensures [C12] atomic: result != nil ==> (forall x like keyof(set.table) :: Mem(set, x) <==> old(Mem(set, x))) && K(set) == old(K(set))
+//@   ensures [C11 C12] loaded-only: jarr_kind(data, keyof(set.table)) == 3 ==> (forall x like keyof(set.table) :: Mem(set, x) ==> (exists j :: 0 <= j && j < jarr_len(data, keyof(set.table)) && jarr_at(data, j, keyof(set.table)) == x))
+//@   ensures [C11 C12] loaded-all: jarr_kind(data, keyof(set.table)) == 3 ==> (forall j :: 0 <= j && j < jarr_len(data, keyof(set.table)) ==> Mem(set, jarr_at(data, j, keyof(set.table))))
+//@   ensures [C12] null: jarr_kind(data, keyof(set.table)) == 2 ==> N(set) == 0
+
+//@ func Set.UnmarshalJSON
+//@   requires Inv(set)
+//@   modifies set.table, set.rank, set.ordering.first, set.ordering.last, set.ordering.size, set.ordering.nodes
+//@   modifies map(set.table)
+//@   modifies each e like set.ordering.first where e.owner == set.ordering : e.next
+//@   ensures [C12 C17] Inv(set) && (result == nil <==> jarr_kind(bytes, keyof(set.table)) >= 2)
+//@   ensures [C12] atomic: result != nil ==> (forall x like keyof(set.table) :: Mem(set, x) <==> old(Mem(set, x))) && K(set) == old(K(set))
+//@   ensures [C11 C12] loaded-only: jarr_kind(bytes, keyof(set.table)) == 3 ==> (forall x like keyof(set.table) :: Mem(set, x) ==> (exists j :: 0 <= j && j < jarr_len(bytes, keyof(set.table)) && jarr_at(bytes, j, keyof(set.table)) == x))
+//@   ensures [C11 C12] loaded-all: jarr_kind(bytes, keyof(set.table)) == 3 ==> (forall j :: 0 <= j && j < jarr_len(bytes, keyof(set.table)) ==> Mem(set, jarr_at(bytes, j, keyof(set.table))))
+//@   ensures [C12] null: jarr_kind(bytes, keyof(set.table)) == 2 ==> N(set) == 0
